@@ -47,13 +47,15 @@ import (
 //     res    ok | err | timeout                probe  <site marker> | - (refused) | hang | e:<class>
 
 var c08 struct {
-	mu      sync.Mutex
-	next    casket.Input
-	logbuf  *c08Log
-	busy    net.Listener
-	p3      int
-	dir     string
-	portCur int
+	mu        sync.Mutex
+	next      casket.Input
+	logbuf    *c08Log
+	busy      net.Listener
+	p3        int
+	dir       string
+	portCur   int
+	anomalies int
+	timeouts  int
 }
 
 type c08Log struct {
@@ -242,23 +244,37 @@ func c08ListenFds(p [4]int) [4]int {
 	return out
 }
 
-// one GET on a fresh connection.  A timeout is reported as `hang` only if it repeats: the machine may stall for a
-// while under load, a listening socket that nobody accepts on never answers.
+// one GET on a fresh connection.  A timeout is reported as `hang` only if it repeats with a long timeout: the machine
+// may stall for a while under load, whereas a listening socket that nobody accepts on never answers.  A model-conforming
+// implementation never hangs, so patience costs nothing on a healthy tree; once a run has produced eight hangs
+// (it is a VIOLATION by then) the remaining cases are probed without patience so that the run still ends soon.
 func c08Probe(port int) string {
-	r := ""
-	for attempt := 0; attempt < 3; attempt++ {
-		r = c08ProbeOnce(port)
-		if r != "hang" {
-			return r
-		}
+	if c08.anomalies >= 8 {
+		return c08ProbeOnce(port, 60*time.Millisecond)
+	}
+	r := c08ProbeOnce(port, 700*time.Millisecond)
+	for attempt := 0; attempt < 2 && r == "hang"; attempt++ {
+		r = c08ProbeOnce(port, 2500*time.Millisecond)
+	}
+	if r == "hang" {
+		c08.anomalies++
 	}
 	return r
 }
 
-func c08ProbeOnce(port int) string {
+// an attempt that has not returned after this long is reported as `timeout` (a healthy attempt takes milliseconds;
+// the bound is generous because the machine may stall under load, and shrinks once a run has shown two timeouts)
+func c08Watchdog() time.Duration {
+	if c08.timeouts >= 2 {
+		return 3 * time.Second
+	}
+	return 30 * time.Second
+}
+
+func c08ProbeOnce(port int, patience time.Duration) string {
 	tr := &http.Transport{DisableKeepAlives: true}
 	defer tr.CloseIdleConnections()
-	cl := &http.Client{Transport: tr, Timeout: 1500 * time.Millisecond}
+	cl := &http.Client{Transport: tr, Timeout: patience}
 	resp, err := cl.Get(fmt.Sprintf("http://127.0.0.1:%d/", port))
 	if err != nil {
 		s := err.Error()
@@ -281,10 +297,6 @@ func c08ProbeOnce(port int) string {
 }
 
 func c08Hooks() int { return len(casket.ListPlugins()["event_hooks"]) }
-
-// an attempt that has not returned after this long is reported as `timeout` (a healthy attempt takes milliseconds;
-// the bound is generous because the machine may stall under load)
-const c08Watchdog = 30 * time.Second
 
 func c08Eval(f []string) (string, []string) {
 	casket.Stop()
@@ -316,8 +328,9 @@ func c08Eval(f []string) (string, []string) {
 					if err != nil {
 						res = "err"
 					}
-				case <-time.After(c08Watchdog):
+				case <-time.After(c08Watchdog()):
 					res = "timeout"
+					c08.timeouts++
 				}
 				tags["validate-"+res] = true
 			case len(casket.Instances()) == 0:
@@ -328,8 +341,9 @@ func c08Eval(f []string) (string, []string) {
 					if err != nil {
 						res = "err"
 					}
-				case <-time.After(c08Watchdog):
+				case <-time.After(c08Watchdog()):
 					res = "timeout"
+					c08.timeouts++
 				}
 				tags["start-"+res] = true
 			default:
@@ -338,12 +352,13 @@ func c08Eval(f []string) (string, []string) {
 				c08.mu.Unlock()
 				from := c08.logbuf.pos()
 				syscall.Kill(os.Getpid(), syscall.SIGUSR1)
-				switch c08.logbuf.waitFor(from, c08Watchdog, "[INFO] Reloading complete", "[ERROR] SIGUSR1:") {
+				switch c08.logbuf.waitFor(from, c08Watchdog(), "[INFO] Reloading complete", "[ERROR] SIGUSR1:") {
 				case "[INFO] Reloading complete":
 				case "[ERROR] SIGUSR1:":
 					res = "err"
 				default:
 					res = "timeout"
+					c08.timeouts++
 				}
 				tags["reload-"+res] = true
 			}
